@@ -1,8 +1,8 @@
-\* thorough: F=2, all gap patterns (steps 2 or 4), inputs of 0..16 keys
+\* thorough: F=2, all gap patterns (steps 2 or 4), inputs of 0..14 keys
 SPECIFICATION Spec
 CONSTANTS F = 2
   Variant = "asCoded"
   Steps = {2, 4}
-  MaxN = 16
-INVARIANTS Valid Faithful FaithfulAnyReader Enumerates EarlyExit Reentrant ReadersAgree EmptyNoTree RejectsExactly MachineIsFunction TailShape NothingLost TailValid Bounded CapIsDead RootDepthPositive
+  MaxN = 14
+INVARIANTS Valid Faithful FaithfulAnyReader Enumerates EarlyExit ReadersAgree EmptyNoTree RejectsExactly MachineIsFunction TailShape NothingLost TailValid Bounded CapIsDead RootDepthPositive
 CHECK_DEADLOCK FALSE
